@@ -144,6 +144,8 @@ impl<T: Val> Val for &T {
 /// number of calls of the wrapped iterator's next() so far, and the call that has to panic
 pub static SRC_CALLS: AtomicUsize = AtomicUsize::new(0);
 pub static SRC_CRASH: AtomicUsize = AtomicUsize::new(usize::MAX);
+/// a source that is not fused: this call of next() (0-based) returns None although elements may remain
+pub static SRC_GAP: AtomicUsize = AtomicUsize::new(usize::MAX);
 /// overlapping executions of the wrapped next()
 pub static SRC_INSIDE: AtomicUsize = AtomicUsize::new(0);
 pub static SRC_OVERLAP: AtomicUsize = AtomicUsize::new(0);
@@ -176,7 +178,7 @@ where
             sched::record(format!("L {} srcpanic", t));
             panic!("probe: injected panic of the wrapped iterator");
         }
-        let r = self.inner.next();
+        let r = if k == SRC_GAP.load(Ordering::SeqCst) { None } else { self.inner.next() };
         SRC_INSIDE.fetch_sub(1, Ordering::SeqCst);
         match &r {
             Some(x) => sched::record(format!("L {} src {}", t, x.value())),
